@@ -208,7 +208,10 @@ def run(ctx):
             jb = rng.integers(0, m - 1, R)
             mid = 0.5 * (xs[np.arange(R), jb] + xs[np.arange(R), jb + 1])
             q = np.where(rng.random(R) < 0.25, mid, q)
-            inside = (q > lo) & (q < hi)
+            # the closed range: a query exactly on the first / last node is inside the row
+            ends = rng.random(R)
+            q = np.where(ends < 0.04, lo, np.where(ends > 0.96, hi, q))
+            inside = (q >= lo) & (q <= hi)
             xs, q = xs[inside], q[inside]
             R = xs.shape[0]
             if R == 0:
@@ -216,7 +219,7 @@ def run(ctx):
             try:
                 got = vec_1d_interp(xs, ys, q)
             except Exception as e:
-                ctx.exception("row-interp", f"vec_1d_interp raised on {R} non-decreasing rows of {m} nodes with queries strictly inside", e, {"rows": R, "nodes": m})
+                ctx.exception("row-interp", f"vec_1d_interp raised on {R} non-decreasing rows of {m} nodes with queries inside the row's closed range", e, {"rows": R, "nodes": m})
                 done += R
                 continue
             z, zlo, zhi = T.invert_rows(xs, ys, q)
